@@ -894,9 +894,18 @@ class IRGenerator:
                     else:
                         default_value = field._ast_node.default
                     if not (field._ast_node.type_ref.nullable and default_value is None):
+                        unwrapped_dt, _ = unwrap_aliases(field.data_type)
+                        if not (is_primitive_type(unwrapped_dt) or
+                                is_union_type(unwrapped_dt)):
+                            raise InvalidSpec(
+                                'Field %s cannot have a default: only fields with a '
+                                'primitive or union type can.' %
+                                quote(field._ast_node.name),
+                                field._ast_node.lineno, field._ast_node.path)
                         # Verify that the type of the default value is correct for this field
                         try:
-                            if field.data_type.name in ('Float32', 'Float64'):
+                            if (field.data_type.name in ('Float32', 'Float64') and
+                                    isinstance(default_value, (int, float))):
                                 # You can assign int to the default value of float type
                                 # However float type should always have default value in float
                                 default_value = float(default_value)
